@@ -27,7 +27,7 @@ MANIFEST_ENTRY = {
 PROP = "C17"
 LEVEL = "proof"
 THEOREMS = ["C17_lr_prefix_sound", "C17_prefix_oracle_correct", "C17_path_prefix_sound", "C17_reference_prefix_sppf_exact",
-            "C17_glr_model_prefix_sound"]
+            "C17_glr_model_prefix_sound", "C17_glr_model_forest_prefix_sound"]
 META = {
     "rule": "cases = (acyclic grammar, LR or GLR with lexical_disambiguation on/off, consume_input=False, input = "
             "sentence followed by arbitrary continuation); non-trivial = input with >= 2 sentence prefixes or a "
